@@ -90,6 +90,7 @@ func objVar(info *types.Info, id *ast.Ident) *types.Var {
 
 func checkC12(r *core.Run) {
 	r.Explain = "Decided statically, every obligation exact: (C12.registry) every type implementing codec.Codec's three methods is registered in codec.Init, its GetMessageType constant equals GetTypeCode of the message type its Encode asserts and its Decode returns, and every message type the client constructs or asserts outside the codec package has a codec; (C12.mirror) for each codec the extracted encode layout (wire kind, field, guard, scale) equals the decode layout, with inverse scaling; (C12.layout) the extracted layout equals the hand-written Seata v1 field table in spec/seata_v1_layout.json; (C12.bound) a string written with an N-bit length prefix after a truncation is truncated to a constant <= 2^(N-1)-1; (C12.frame) CodecManager.Encode prepends the 16-bit type code of the message and Decode dispatches on it and hands in[2:] to the codec. (C12.pure) codecs, codec manager, frame reader/writer and byte helpers consult no package-level state that request paths mutate; (C12.helpers) each length-prefixed string writer of pkg/util/bytes writes, as its prefix, the byte length len(value) of the string it then writes in full, and each reader allocates a fresh buffer of exactly the prefix it read, fills it from the frame and returns a copy (string(p)); the package does not import unsafe. NOT decided: field values beyond the prefix limits other than the truncated message text."
+	r.Explain += " Round 8: (C12.helpers, also) a length-prefixed read copies its bytes under no other condition than 'the prefix is not zero' — no cap silently shortens a field."
 	r.Trusted = []string{"go/types", "pkg/util/bytes integer helpers (big endian) and dubbogo/gost ByteBuffer Read/Write", "spec/seata_v1_layout.json (hand-written field table)"}
 	w := r.W
 	ci := w.Interface("pkg/protocol/codec", "Codec")
@@ -621,6 +622,17 @@ func c12Helpers(r *core.Run, rule string) {
 				if !ok {
 					return true
 				}
+				if id, isId := ast.Unparen(c.Fun).(*ast.Ident); isId {
+					// the payload handed to a helper of the package that writes it in full (skipping only the empty value)
+					if g := w.Info(core.Callee(info, c)); g != nil && g.Pkg == p && g.Decl.Body != nil && id != nil {
+						for i, a := range c.Args {
+							if isObj(info, a, val) && i < len(paramObjs(g)) && c12WritesWhole(g, paramObjs(g)[i]) {
+								wroteValue = true
+							}
+						}
+					}
+					return true
+				}
 				sel, ok := ast.Unparen(c.Fun).(*ast.SelectorExpr)
 				if !ok || len(c.Args) != 1 {
 					return true
@@ -711,6 +723,19 @@ func readCopies(w *core.World, f *core.FuncInfo, lengthP types.Object, depth int
 				if sameLen(c.Args[1]) {
 					okMake = true
 					bufV = core.ObjOf(info, x.Lhs[0])
+					// the copy happens for every non-zero prefix: the test around it is `prefix > 0` / `!= 0` and
+					// nothing else about the prefix (a cap refuses what the writer emits)
+					for _, anc := range enclosing(f.Decl.Body, x) {
+						ifs, isIf := anc.(*ast.IfStmt)
+						if !isIf || x.Pos() < ifs.Body.Pos() || x.End() > ifs.Body.End() || lengthV == nil || !mentions(info, ifs.Cond, lengthV) {
+							continue
+						}
+						be, isBin := ast.Unparen(ifs.Cond).(*ast.BinaryExpr)
+						nonZero := isBin && (be.Op == token.GTR || be.Op == token.NEQ) && sameLen(be.X) && core.ConstVal(info, be.Y) != nil && core.ConstVal(info, be.Y).String() == "0"
+						if !nonZero {
+							bad = "copies the bytes only under '" + core.ExprString(ifs.Cond) + "', more than 'the prefix is not zero'"
+						}
+					}
 				} else {
 					bad = "the buffer is sized '" + core.ExprString(c.Args[1]) + "', not the prefix that was read"
 				}
@@ -724,6 +749,19 @@ func readCopies(w *core.World, f *core.FuncInfo, lengthP types.Object, depth int
 				return true
 			}
 			if v := core.ConstVal(info, x.Results[0]); v != nil {
+				// the empty answer belongs to the zero prefix only: under any other test of the prefix (a cap) the
+				// reader refuses what the writer emits, and leaves the field's bytes for the next field
+				for _, anc := range enclosing(f.Decl.Body, x) {
+					ifs, isIf := anc.(*ast.IfStmt)
+					if !isIf || x.Pos() < ifs.Body.Pos() || x.End() > ifs.Body.End() {
+						continue
+					}
+					be, isBin := ast.Unparen(ifs.Cond).(*ast.BinaryExpr)
+					zero := isBin && (be.Op == token.EQL || be.Op == token.LEQ) && sameLen(be.X) && core.ConstVal(info, be.Y) != nil && core.ConstVal(info, be.Y).String() == "0"
+					if !zero && lengthV != nil && mentions(info, ifs.Cond, lengthV) {
+						bad = "answers the constant " + core.ExprString(x.Results[0]) + " under '" + core.ExprString(ifs.Cond) + "', a test of the prefix other than == 0"
+					}
+				}
 				return true
 			}
 			if wantBytes && bufV != nil && isObj(info, x.Results[0], bufV) {
@@ -1058,4 +1096,91 @@ func lengthGuarded(fn *core.FuncInfo, call *ast.CallExpr, callee *types.Func) bo
 		return true
 	})
 	return ok
+}
+
+// c12WritesWhole: g writes its parameter v with one WriteString / Write of the whole value, nothing else, and skips
+// the write only for the empty value (`if v == "" { return }`, `if len(v) == 0 { return }`, or the write under the
+// opposite test).
+func c12WritesWhole(g *core.FuncInfo, v types.Object) bool {
+	info := g.Pkg.TypesInfo
+	emptyTest := func(e ast.Expr) (isEmpty, ok bool) {
+		be, isBin := ast.Unparen(e).(*ast.BinaryExpr)
+		if !isBin {
+			return false, false
+		}
+		x, y := ast.Unparen(be.X), ast.Unparen(be.Y)
+		cv := core.ConstVal(info, y)
+		if cv == nil {
+			return false, false
+		}
+		zero := (cv.Kind() == constant.String && constant.StringVal(cv) == "") || (cv.Kind() == constant.Int && constant.Sign(cv) == 0)
+		if !zero {
+			return false, false
+		}
+		onV := isObj(info, x, v)
+		if c, isCall := x.(*ast.CallExpr); isCall && len(c.Args) == 1 {
+			if id, isId := ast.Unparen(c.Fun).(*ast.Ident); isId && id.Name == "len" && isObj(info, c.Args[0], v) {
+				onV = true
+			}
+		}
+		if !onV {
+			return false, false
+		}
+		switch be.Op {
+		case token.EQL:
+			return true, true
+		case token.NEQ, token.GTR:
+			return false, true
+		}
+		return false, false
+	}
+	writes, other := 0, false
+	var walk func(list []ast.Stmt) bool
+	walk = func(list []ast.Stmt) bool {
+		for _, st := range list {
+			switch x := st.(type) {
+			case *ast.IfStmt:
+				isEmpty, ok := emptyTest(x.Cond)
+				if !ok || x.Init != nil || x.Else != nil {
+					return false
+				}
+				if isEmpty {
+					if len(x.Body.List) != 1 {
+						return false
+					}
+					if rs, isRet := x.Body.List[0].(*ast.ReturnStmt); !isRet || len(rs.Results) != 0 {
+						return false
+					}
+				} else if !walk(x.Body.List) {
+					return false
+				}
+			case *ast.ExprStmt:
+				c, isCall := ast.Unparen(x.X).(*ast.CallExpr)
+				if !isCall {
+					return false
+				}
+				sel, isSel := ast.Unparen(c.Fun).(*ast.SelectorExpr)
+				if !isSel || len(c.Args) != 1 || (sel.Sel.Name != "WriteString" && sel.Sel.Name != "Write") {
+					other = true
+					continue
+				}
+				a := ast.Unparen(c.Args[0])
+				if cvt, isCvt := a.(*ast.CallExpr); isCvt && len(cvt.Args) == 1 {
+					a = ast.Unparen(cvt.Args[0])
+				}
+				if !isObj(info, a, v) {
+					return false
+				}
+				writes++
+			case *ast.ReturnStmt:
+				if len(x.Results) != 0 {
+					return false
+				}
+			default:
+				return false
+			}
+		}
+		return true
+	}
+	return walk(g.Decl.Body.List) && writes == 1 && !other
 }
